@@ -760,7 +760,7 @@ def clone_env(env):
 
 
 # ---- generic oracle: one parse node evaluated repeatedly gives each time what it gives when written out --------------------
-REPEAT_SKIP = re.compile(r"rand|sample|seed|now|today|quit|exit|histogram|line|scatter|plot|options|bar|[;=%\n\r]|\bi_\b")
+REPEAT_SKIP = re.compile(r"rand|sample|seed|now|today|quit|exit|histogram|line|scatter|plot|options|bar|text|[;=%\n\r]|\bi_\b")
 
 
 def repeat_oracle(ctx, n_quick=120, n_thorough=1500):
